@@ -462,7 +462,26 @@ def check_locals(chk, it, tabs):
     chk.expect(all(not t.ok for t in tp), 'R03.5', 'local-index-checked', 'local.get 5 of a function with 5 locals is translated', 'wasmModuleFunctionGetLocalType')
 
 
-def check_function_body(chk, tus, tabs):
+def parse_local_decls(text):
+    """[(C type, local number, initialiser text or None)] of the declarations of l<N> variables in an emitted function body - one
+    entry per declarator, whether the locals are declared one per statement or grouped (`T l1=0,l2=0;`)"""
+    out = []
+    for m in re.finditer(r'(?:^|[;{}\n])\s*((?:const\s+)?\w+)\s+((?:l\d+\s*(?:=\s*[^,;]+)?\s*,\s*)*l\d+\s*(?:=\s*[^,;]+)?)\s*;', text):
+        ty = m.group(1)
+        if ty in ('return', 'goto', 'else'):
+            continue
+        for d in m.group(2).split(','):
+            dm = re.fullmatch(r'\s*l(\d+)\s*(?:=\s*(.+?))?\s*', d)
+            if dm:
+                out.append((ty, dm.group(1), dm.group(2)))
+    return out
+
+
+def _is_zero_init(init):
+    return init is not None and re.fullmatch(r'\(?\s*(0[uUlL]*|0\.0*[fF]?|0x0+[uUlL]*|W2C2_LL\(0[uU]?\))\s*\)?', init.strip()) is not None
+
+
+def check_function_body(chk, tus, tabs, rule='R03.5'):
     """wasmCWriteFunctionBody: declarations first, zero-initialised locals, L0 and return"""
     it = emit.make_interp(tus)
     module, function = local_context(it)
@@ -482,10 +501,16 @@ def check_function_body(chk, tus, tabs):
     chk.require(len(paths) == 1, 'wasmCWriteFunctionBody: %d successful paths' % len(paths))
     text = paths[0].state['out'].render()
     site = 'wasmCWriteFunctionBody'
-    decl = [(m.group(1), m.group(2)) for m in re.finditer(r'(\w+)\s+l(\d+)\s*=\s*0\s*;', text)]
+    parsed = parse_local_decls(text)
+    decl = [(t_, n_) for t_, n_, i_ in parsed]
     want = [(C['i64'], '2'), (C['i64'], '3'), (C['f32'], '4')]
-    chk.expect(decl == want, 'R03.5', 'locals-declared-zero',
-               'declared locals are emitted as %r; expected %r (numbered after the 2 parameters, each initialised to 0)' % (decl, want), site + ':locals')
+    uninit = [(t_, 'l' + n_, i_) for t_, n_, i_ in parsed if not _is_zero_init(i_)]
+    chk.expect(decl == want and not uninit, rule, 'locals-declared-zero',
+               'declared locals are emitted as %r; expected %r (numbered after the 2 parameters), each declarator with its own initialiser 0 - '
+               'in C an initialiser binds to one declarator only, so `T a,b=0;` leaves `a` indeterminate (not zero-initialised: %r)'
+               % (parsed, want, uninit), site + ':locals')
+    if rule != 'R03.5':
+        return
     slotdecl = re.search(r'%s\s+s%s0\s*;' % (C['i32'], L['i32']), text)
     body = text.find('%dU' % MARK)
     chk.expect(slotdecl is not None and slotdecl.start() < body and all(text.index('l%s' % n) < body for _, n in decl), 'R03.5', 'declarations-first',
